@@ -66,6 +66,8 @@ def requests():
     R["m.cm two cats"] = (lambda: Quantity.CreateDerived(_od(("length", "m", 1), ("diameter", "cm", 1))), ((("length", ("m", 1)), ("diameter", ("cm", 1))), ""))
     R["m2 cap X"] = (lambda: Quantity.CreateDerived(_od(("length", "m", 2)), unknown_unit_caption="X"), ((("length", ("m", 2)),), "X"))
     R["m2 cap Y"] = (lambda: ObtainQuantity(_od(("length", "m", 2)), None, "Y"), ((("length", ("m", 2)),), "Y"))
+    R["m,length cap ''"] = (lambda: ObtainQuantity("m", "length", ""), simple("length", "m"))
+    R["unknown cap ''"] = (lambda: ObtainQuantity("<unknown>", "Unknown", ""), simple("Unknown", "<unknown>"))
     R["m,length cap Z"] = (lambda: ObtainQuantity("m", "length", "as measured"), simple("length", "m", "as measured"))
     R["3 cats m.cm.m"] = (lambda: Quantity.CreateDerived(_od(("length", "m", 1), ("depth", "cm", 1), ("height", "m", 1))),
                           ((("length", ("m", 1)), ("depth", ("cm", 1)), ("height", ("m", 1))), ""))
